@@ -436,7 +436,7 @@ class Ctx:
                 return self.neg(self.of_term(args[0]))
             if n == 'sqrt':
                 return self.sqrt(self.of_term(args[0]))
-            if n in ('exp', 'ln', 'abs', 'floor', 'round', 'f2i', 'min', 'max', 'fmin', 'fmax', 'len', 'powi', 'index'):
+            if n in ('exp', 'ln', 'abs', 'floor', 'round', 'f2i', 'min', 'max', 'fmin', 'fmax', 'len', 'powi', 'index', 'ceil', 'trunc', 'signum', 'powf', 'round_ties_even'):
                 return self.rf(p_atom((n,) + tuple(self.arg_key(a) for a in args)))
             raise NotReal('operation %s' % n)
         if k == 'call':
